@@ -1,7 +1,7 @@
 package dtls
 
 //symgo:pkg github.com/pion/dtls/v3
-//symgo:param NSPLIT quick=12 thorough=24
+//symgo:param NSPLIT quick=16 thorough=28
 //symgo:param NRT quick=4 thorough=5
 //symgo:assume fragmentHandshake runs after Handshake.Marshal (prepareRawPacket -> cacheHandshakePacket -> Record.Marshal), which sets Header.Length = len(body) and Header.Type = Message.Type(); the harness calls Handshake.Marshal first, like the real send path
 //symgo:assume maximumTransmissionUnit >= 1 (effectiveMTU / WithMTU reject non-positive values)
